@@ -150,6 +150,8 @@ impl Server {
         )?;
         grammar_config.update_cfg(cfg);
         let grammar_config = grammar_config.clone();
+        #[cfg(parol_verif)]
+        crate::verif::spawned(&connection, uri.as_str(), version);
         thread::spawn(move || match grammar_config.grammar_type {
             GrammarType::LLK => {
                 #[cfg(parol_verif)]
